@@ -421,7 +421,7 @@ MANIFEST = {
     "text": "Exploration: 1-2*10^4 (quick) / 10^5 and more (thorough, time-bounded) generated tracks x filter lists go through the real command-line list parsing and the real "
     "TaskFilterTrackProcessor; the schedules of every challenge afterwards are compared with a documentation-derived reference filter (exactly the selected tasks, original "
     "order and grouping, every task attribute equal to a snapshot taken before), must contain no element without tasks, and are given to the real Allocator and a real "
-    "Driver that is walked through every join point (C02 monitors). Malformed filter values must raise SystemSetupError. "
+    "Driver that is walked through every join point (C02 monitors). Malformed filter values must raise SystemSetupError; every filtered challenge - an emptied one included - must still be the one driver.select_challenge and Track.selected_challenge_or_default select. "
     "One case in 300 is a complete simulated race started through the real CLI with --include-tasks / --exclude-tasks: the tasks seen at the simulated node are exactly the selected ones. Holds on the executions produced, not beyond.",
     "note": "Trusts the 25-line reference filter and the C02 monitors; the simulated end-to-end race on filtered tracks is a separate workload class.",
     "technique": "runtime monitor: reference-model oracle + before/after snapshot + C02 invariants on the filtered schedule, generated filters aimed at parallel elements",
